@@ -107,8 +107,10 @@ def run_rewriter(mode, pkgdir, outdir, frag):
             f.write(stamp)
     os.makedirs(outdir, exist_ok=True)
     args = [tool, "-in", pkgdir, "-out", outdir]
+    if mode == "seam":
+        args.append("-shim=false")
     for k, v in sorted(frag.get("rewrite", {}).items()):
-        args += ["-" + k, str(v)]
+        args.append("-%s=%s" % (k, v))
     r = subprocess.run(args, capture_output=True, text=True)
     if r.returncode != 0:
         print("VERIF-ERROR vrewrite failed:\n" + r.stdout + r.stderr)
